@@ -29,6 +29,12 @@ func c04(c *Ctx) {
 	// occupies exactly n bytes, whatever state its maker may hold (otherwise writePacket pads after the payload)
 	c01Stuffing(c, ck)
 	c04ExactFill(c)
+	// the size budget of the NEXT call is computed from the caller's adaptation field: the stuffing WriteData stored into it is
+	// taken back (to exactly 0, not by a tally that may exceed it) before a successful return (S1-reset of C01) — a negative
+	// StuffingLength wraps in the uint8 length and the packet comes out longer than 188 bytes
+	c01StuffingReset(c)
+	// a value the adaptation-field writer refuses is refused before anything of the packet reached the writer
+	ck.NoEmitBeforeLocalError(r, "writePacketAdaptationField")
 	// "consistent under an independent decoder": what writePacket emits is read back field for field by parsePacket (header
 	// fields masked to their widths: an oversize PID or counter must not spill into neighbouring flags) — the whole-packet
 	// joints of C01; and table packets always come out of writePacket, never from patched cached bytes (rules 'current' of C17)
